@@ -907,6 +907,14 @@ class History:
                 return subject.sees_eof() or len(self.rec.connects) > n_before
             wait_until(settled, self.B())
             if len(self.rec.connects) > n_before and not subject.eof:
+                # a connection was set up after close().  On the thread pool the accept loop itself finishes the handshake, registers the
+                # connection and then leaves start(), whose own close() drops what the late accept registered: the client IS disconnected, a
+                # moment later.  Judge by what the client ends up with, not by the instant at which we look (vp check run 10, seed 1: the
+                # look fell between on_connect and that drop - false alarm of the machinery, corrected).
+                if kind == "pool":
+                    self.thread.join(self.B())
+                wait_until(subject.sees_eof, self.B())
+            if len(self.rec.connects) > n_before and not subject.eof:
                 self.violation("close-misses-client-in-authentication:%s" % kind, idx,
                                observed={"closed": bool(srv._closed), "connection set up after close()": True, "Server.clients": len(list(srv.clients))},
                                expected="the client is disconnected", what="close() ran while the authenticator (which had replaced the accepted socket) was still "
